@@ -261,20 +261,37 @@ func checkC08(c *Check, p *Program) {
 				if call, ok := in.(*ssa.Call); ok && call.Common().StaticCallee() != nil && call.Common().StaticCallee().String() == "time.Date" {
 					usesDate = true
 				}
-				if bo, ok := in.(*ssa.BinOp); ok {
-					if k, isK := constInt(bo.Y); isK {
-						if k == 1990 && bo.Op == token.LSS {
-							yLo = true
-						}
-						if k == 2089 && bo.Op == token.GTR {
-							yHi = true
-						}
-					}
-					if bo.Op == token.EQL {
-						nEq++
+			})
+			// what holds whenever IsValid returns true (conjunctions along a path, alternatives intersected)
+			eqOn := map[string]bool{}
+			for _, f := range mustHoldWhenTrue(isv) {
+				k, isK := constInt(f.Y)
+				x := f.X
+				if !isK {
+					if k2, isK2 := constInt(f.X); isK2 {
+						k, isK, x = k2, true, f.Y
+						f.Op = swapOp(f.Op)
 					}
 				}
-			})
+				_ = x
+				if isK && k == 1990 && f.Op == token.GEQ {
+					yLo = true
+				}
+				if isK && k == 2089 && f.Op == token.LEQ {
+					yHi = true
+				}
+				if f.Op == token.EQL {
+					for _, side := range []ssa.Value{f.X, f.Y} {
+						if call, ok := stripAllConv(side).(*ssa.Call); ok && call.Common().StaticCallee() != nil {
+							switch call.Common().StaticCallee().String() {
+							case "(time.Time).Year", "(time.Time).Month", "(time.Time).Day":
+								eqOn[call.Common().StaticCallee().Name()] = true
+							}
+						}
+					}
+				}
+			}
+			nEq = len(eqOn)
 			c.Decide(usesDate && yLo && yHi && nEq >= 3, "C08.range", "dpt.DPT_11001.IsValid demands a real date in 1990..2089", p.Pos(isv.Pos()), "time.Date normalisation compared on year, month and day; year in 1990..2089", "IsValid does not compare all three fields with time.Date's normalisation within 1990..2089")
 		}
 	}
@@ -361,68 +378,101 @@ func checkStoredRange(c *Check, p *Program, dt dptType, rs dptRange) {
 }
 
 // isValidFieldRange: the interval IsValid's true result implies for a field.
+// The result value is a tree of phis (the value form of && and ||): the edges
+// of a phi are alternatives (hull of their intervals), the comparison edges
+// that dominate one alternative and the comparison it ends in hold together
+// (intersection).
 func isValidFieldRange(p *Program, isv *ssa.Function, field string) (fiv, bool) {
-	out := fiv{math.Inf(-1), math.Inf(1)}
 	found := false
-	// the `true` result is a phi/and-chain: every comparison edge that dominates the block producing true
-	for _, r := range returnsOf(isv) {
-		v := r.Results[0]
-		var visit func(v ssa.Value, blk *ssa.BasicBlock)
-		visit = func(v ssa.Value, blk *ssa.BasicBlock) {
-			collect := func(fs []Cmp) {
-				for _, f := range fs {
-					x, y, op := f.X, f.Y, f.Op
-					if _, isK := constFloat(x); isK {
-						x, y, op = y, x, swapOp(op)
-					}
-					k, isK := constFloat(y)
-					fl := loadedField(stripFloatConv(x))
-					if fx, ok := stripFloatConv(x).(*ssa.Field); ok {
-						fl = structField(fx.X.Type(), fx.Field)
-					}
-					if !isK || fl == nil || fl.Name() != field {
-						continue
-					}
-					found = true
-					isInt := false
-					if bt, ok := x.Type().Underlying().(*types.Basic); ok && bt.Info()&types.IsInteger != 0 {
-						isInt = true
-					}
-					switch op {
-					case token.LEQ:
-						out.hi = math.Min(out.hi, k)
-					case token.LSS:
-						if isInt {
-							k = math.Ceil(k) - 1
-						}
-						out.hi = math.Min(out.hi, k)
-					case token.GEQ:
-						out.lo = math.Max(out.lo, k)
-					case token.GTR:
-						if isInt {
-							k = math.Floor(k) + 1
-						}
-						out.lo = math.Max(out.lo, k)
-					}
-				}
+	full := fiv{math.Inf(-1), math.Inf(1)}
+	empty := fiv{math.Inf(1), math.Inf(-1)}
+	meet := func(a, b fiv) fiv { return fiv{math.Max(a.lo, b.lo), math.Min(a.hi, b.hi)} }
+	hull := func(a, b fiv) fiv {
+		if a.lo > a.hi {
+			return b
+		}
+		if b.lo > b.hi {
+			return a
+		}
+		return fiv{math.Min(a.lo, b.lo), math.Max(a.hi, b.hi)}
+	}
+	ofFacts := func(fs []Cmp) fiv {
+		out := full
+		for _, f := range fs {
+			x, y, op := f.X, f.Y, f.Op
+			if _, isK := constFloat(x); isK {
+				x, y, op = y, x, swapOp(op)
 			}
-			switch x := v.(type) {
-			case *ssa.Phi:
-				for i, e := range x.Edges {
-					if k, ok := e.(*ssa.Const); ok && k.Value != nil && k.Value.String() == "false" {
-						continue
-					}
-					pred := x.Block().Preds[i]
-					collect(factsAt(pred))
-					visit(e, pred)
+			k, isK := constFloat(y)
+			fl := loadedField(stripFloatConv(x))
+			if fx, ok := stripFloatConv(x).(*ssa.Field); ok {
+				fl = structField(fx.X.Type(), fx.Field)
+			}
+			if !isK || fl == nil || fl.Name() != field {
+				continue
+			}
+			found = true
+			isInt := false
+			if bt, ok := x.Type().Underlying().(*types.Basic); ok && bt.Info()&types.IsInteger != 0 {
+				isInt = true
+			}
+			switch op {
+			case token.LEQ:
+				out.hi = math.Min(out.hi, k)
+			case token.LSS:
+				if isInt {
+					k = math.Ceil(k) - 1
 				}
-			case *ssa.BinOp:
-				cm, _ := cmpOf(x, true)
-				collect([]Cmp{cm})
-				collect(factsAt(x.Block()))
+				out.hi = math.Min(out.hi, k)
+			case token.GEQ:
+				out.lo = math.Max(out.lo, k)
+			case token.GTR:
+				if isInt {
+					k = math.Floor(k) + 1
+				}
+				out.lo = math.Max(out.lo, k)
+			case token.EQL:
+				out.lo, out.hi = math.Max(out.lo, k), math.Min(out.hi, k)
 			}
 		}
-		visit(v, r.Block())
+		return out
+	}
+	var whenTrue func(v ssa.Value, depth int) fiv
+	whenTrue = func(v ssa.Value, depth int) fiv {
+		if depth > 12 {
+			return full
+		}
+		switch x := v.(type) {
+		case *ssa.Const:
+			if x.Value != nil && x.Value.String() == "false" {
+				return empty
+			}
+			return full
+		case *ssa.Phi:
+			out := empty
+			for i, e := range x.Edges {
+				pred := x.Block().Preds[i]
+				alt := meet(ofFacts(append(factsAt(pred), edgeFacts(pred, x.Block())...)), whenTrue(e, depth+1))
+				out = hull(out, alt)
+			}
+			return out
+		case *ssa.BinOp:
+			cm, ok := cmpOf(x, true)
+			if !ok {
+				return full
+			}
+			return ofFacts([]Cmp{cm})
+		case *ssa.UnOp:
+			return full
+		}
+		return full
+	}
+	out := empty
+	for _, r := range returnsOf(isv) {
+		if len(r.Results) != 1 {
+			return full, false
+		}
+		out = hull(out, meet(ofFacts(factsAt(r.Block())), whenTrue(r.Results[0], 0)))
 	}
 	return out, found
 }
@@ -480,4 +530,87 @@ func edgeIntervals(v ssa.Value, b *ssa.BasicBlock) []fiv {
 		out = append(out, iv)
 	}
 	return out
+}
+
+// mustHoldWhenTrue: comparisons that hold on every way the boolean function
+// returns true.  The result is a tree of phis (value form of && and ||): along
+// one alternative the dominating edges and the final comparison hold together,
+// alternatives are intersected.
+func mustHoldWhenTrue(fn *ssa.Function) []Cmp {
+	key := func(c Cmp) string {
+		return c.Op.String() + "|" + fmt.Sprintf("%p|%p", c.X, c.Y) + "|" + c.X.String() + "|" + c.Y.String()
+	}
+	type set map[string]Cmp
+	var whenTrue func(v ssa.Value, depth int) (set, bool) // false: never true
+	whenTrue = func(v ssa.Value, depth int) (set, bool) {
+		if depth > 12 {
+			return set{}, true
+		}
+		switch x := v.(type) {
+		case *ssa.Const:
+			if x.Value != nil && x.Value.String() == "false" {
+				return nil, false
+			}
+			return set{}, true
+		case *ssa.Phi:
+			var out set
+			any := false
+			for i, e := range x.Edges {
+				pred := x.Block().Preds[i]
+				alt, ok := whenTrue(e, depth+1)
+				if !ok {
+					continue
+				}
+				for _, f := range append(factsAt(pred), edgeFacts(pred, x.Block())...) {
+					alt[key(f)] = f
+				}
+				if !any {
+					out, any = alt, true
+					continue
+				}
+				for k := range out {
+					if _, both := alt[k]; !both {
+						delete(out, k)
+					}
+				}
+			}
+			if !any {
+				return nil, false
+			}
+			return out, true
+		case *ssa.BinOp:
+			if cm, ok := cmpOf(x, true); ok {
+				return set{key(cm): cm}, true
+			}
+		}
+		return set{}, true
+	}
+	var out set
+	any := false
+	for _, r := range returnsOf(fn) {
+		if len(r.Results) != 1 {
+			return nil
+		}
+		alt, ok := whenTrue(r.Results[0], 0)
+		if !ok {
+			continue
+		}
+		for _, f := range factsAt(r.Block()) {
+			alt[key(f)] = f
+		}
+		if !any {
+			out, any = alt, true
+			continue
+		}
+		for k := range out {
+			if _, both := alt[k]; !both {
+				delete(out, k)
+			}
+		}
+	}
+	var res []Cmp
+	for _, f := range out {
+		res = append(res, f)
+	}
+	return res
 }
